@@ -547,6 +547,7 @@ def quoted_string(ctx):
 
 @Parser
 def angle_bracketed_char(ctx):
+    ctx.skip_whitespace()
     ctx_start = ctx.save()
     opening_angle_bracket(ctx)
     expr = expression(ctx)
